@@ -33,6 +33,57 @@ func (t *tnode) count() int {
 	return c
 }
 
+// structMut returns a copy of the tree in which the node with preorder index `at` (never the root) is deleted, duplicated,
+// swapped with its next sibling, or - a structure - emptied. ok is false when the mutation does not apply there.
+func structMut(root *tnode, at int, kind string) (*tnode, bool) {
+	idx := 0
+	ok := false
+	var cp func(t *tnode) *tnode
+	cp = func(t *tnode) *tnode {
+		n := &tnode{n: t.n}
+		for i := 0; i < len(t.kids); i++ {
+			idx++
+			me := idx
+			k := t.kids[i]
+			if me != at {
+				n.kids = append(n.kids, cp(k))
+				continue
+			}
+			switch kind {
+			case "delete":
+				idx += k.count() - 1
+				ok = true
+			case "dup":
+				c1 := cp(k)
+				n.kids = append(n.kids, c1, c1)
+				ok = true
+			case "swap":
+				if i+1 < len(t.kids) {
+					c1 := cp(k)
+					idx++
+					c2 := cp(t.kids[i+1])
+					n.kids = append(n.kids, c2, c1)
+					i++
+					ok = true
+				} else {
+					n.kids = append(n.kids, cp(k))
+				}
+			case "empty":
+				if len(k.kids) > 0 {
+					idx += k.count() - 1
+					n.kids = append(n.kids, &tnode{n: k.n})
+					ok = true
+				} else {
+					n.kids = append(n.kids, cp(k))
+				}
+			}
+		}
+		return n
+	}
+	r := cp(root)
+	return r, ok
+}
+
 var typeNameList = []string{"Structure", "Integer", "LongInteger", "BigInteger", "Enumeration", "Boolean", "TextString", "ByteString", "DateTime", "Interval"}
 
 var lexAlternatives = []string{"", "0x", "0xZZ", "0xABC", "-1", "9223372036854775808", "1.5", "TRUE", "True", "1", "NoSuchName", "Sign||Verify", "Sign | Verify", "0x80000000", "2023-13-45T99:99:99Z", "+5", " 7", "1e3"}
@@ -288,6 +339,17 @@ func c02TextJobs(thorough bool, emit func(codec, class string, doc []byte, targe
 			for _, m := range jsonMuts {
 				if d, ok := jsonDoc(root, at, m); ok {
 					emit("json", "json:"+mutClass(m), d, b.targets)
+				}
+			}
+		}
+		// structural deviations: an element missing, repeated, out of order, or a structure without content
+		for at := 1; at < n; at++ {
+			for _, kind := range []string{"delete", "dup", "swap", "empty"} {
+				if mt, ok := structMut(root, at, kind); ok {
+					dx, _ := xmlDoc(mt, -1, "")
+					dj, _ := jsonDoc(mt, -1, "")
+					emit("xml", "xml:struct-"+kind, dx, b.targets)
+					emit("json", "json:struct-"+kind, dj, b.targets)
 				}
 			}
 		}
